@@ -34,7 +34,11 @@ def normtok(leaf):
     v = leaf.value
     if leaf.ttype in T.Keyword or leaf.ttype in T.Operator.Comparison \
             or leaf.ttype is T.Name.Builtin:
-        v = ' '.join(v.upper().split())
+        q = v.find("'")
+        if q < 0:
+            v = ' '.join(v.upper().split())
+        else:      # AT TIME ZONE 'zone': the literal part stays as written
+            v = ' '.join(v[:q].upper().split()) + ' ' + v[q:]
     return (str(leaf.ttype), v)
 
 
